@@ -132,6 +132,7 @@ void Executor::load_model(sut::Sut& s, const LP& lp, bool viaRational, double in
 struct ThreadArg { Executor* ex; int task; void (Executor::*fn)(int); };
 
 RunResult Executor::run() {
+  if (plan_.engine == "file" && opt_.scratch.find("/simdisk") != std::string::npos) { std::string cmd = "find '" + opt_.scratch + "' -maxdepth 1 -type f -delete 2>/dev/null"; int rc = system(cmd.c_str()); (void)rc; }
   int ntasks = (int)plan_.cfgi("ntasks", 1);
   tasks_.assign(ntasks, TaskCtx());
   for (int t = 0; t < ntasks; t++) {
